@@ -120,9 +120,9 @@ func (c *Conn) Close() error {
 	return o.rerr
 }
 
-func (c *Conn) LocalAddr() net.Addr                { return addr(c.id) }
-func (c *Conn) RemoteAddr() net.Addr               { return addr(c.peer.id) }
-func (c *Conn) SetDeadline(t time.Time) error      { return nil }
+func (c *Conn) LocalAddr() net.Addr           { return addr(c.id) }
+func (c *Conn) RemoteAddr() net.Addr          { return addr(c.peer.id) }
+func (c *Conn) SetDeadline(t time.Time) error { return nil }
 func (c *Conn) SetReadDeadline(t time.Time) error {
 	s := S
 	if s == nil || s.dead {
@@ -150,6 +150,7 @@ func (c *Conn) SetReadDeadline(t time.Time) error {
 	c.rdl = tm
 	return nil
 }
+
 // SetWriteDeadline is a visible operation: the deadline is a property of the connection and
 // also applies to a Write of another goroutine that is already blocked.  (SetDeadline is
 // not modelled: only the dialer of gobwas/ws calls it, with a real-time value.)
